@@ -1171,6 +1171,8 @@ class FnCtx:
                 except SpecError as ex:
                     self.stale(label + '.decreases', str(ex))
             st.loops[key] = {'cut': True, 'dec0': dec0, 'held': held}
+            if spec is not None and spec.steps:
+                st.loops[key]['head'] = st.copy()
             return True
         # back edge: preserve
         if not self.path_feasible():
@@ -1179,6 +1181,17 @@ class FnCtx:
         self.mark_covered(st)
         for c in invs:
             self.prove_inv(st, fr, ev, c, h, label, 'preserve')
+        if spec is not None and spec.steps and info.get('head') is not None:
+            ev3 = ev.sub()
+            ev3.prev_state = info['head']
+            for c in spec.steps:
+                name = '%s.step[%s]' % (label, c.label)
+                try:
+                    g = self.inv_formula(st, fr, ev3, c, h)
+                except SpecError as ex:
+                    self.stale(name, str(ex))
+                    continue
+                self.prove(st, g, name, 'loop-step', None, c.text, assume_after=False)
         bad = False
         for (an, af, meta) in info.get('held', []):
             if (label, an) in self.dropped_auto:
